@@ -1,5 +1,6 @@
 pub mod ast;
 pub mod gen;
+pub mod parse;
 pub mod print;
 pub mod structure;
 
